@@ -94,7 +94,7 @@ def run(tier):
     for leg, args, data, exp, desc, opts in cells:
         e = expected[(leg, desc)]
         if e is not None:
-            ex.add(leg, 'fast', args, data, sched.expect_exact(0, e), desc, opts)
+            ex.add(leg, 'fast', args, data, sched.expect_exact(0, e, allow_inv=4 if leg == 'copy' else 0), desc, opts)
     # passes of increasing bound: every cell completes d before any starts d+1
     done = 0
     for d in range(1, maxd + 1):
